@@ -3,7 +3,7 @@
 -/
 import J2M.Proofs.OptimizeRaw
 import J2M.Proofs.OptimizeIdem
-namespace J2M
+namespace J2M.C08P
 
 def isOtherCls (t : Ty) : Bool := t.cls == 0 || t.cls == 5
 def isStrCls (t : Ty) : Bool := t.cls == 4
@@ -221,7 +221,7 @@ theorem union_nf {c : LitCfg} {tys : List Ty} (ok : TysOK c tys)
 /-! ### the member list before the final `DUnion` -/
 
 /-- constructor index -/
-def Ty.kindN : Ty → Nat
+def _root_.J2M.Ty.kindN : Ty → Nat
   | .int => 0 | .float => 1 | .bool => 2 | .str => 3 | .null => 4 | .unknown => 5 | .ser _ => 6
   | .lit _ _ => 7 | .list _ => 8 | .dict _ => 9 | .opt _ => 10 | .union _ => 11 | .tuple _ => 12
   | .obj _ => 13 | .ptr _ => 14
@@ -894,4 +894,22 @@ theorem optimize_nf_all (cfg : GenCfg) (e : EqEnv) : ∀ fuel,
           exact ih.1 kv.2 v (rawF_Raw (hr kv hkv)) hv
     | _ => exact optimize_nf_rawF ih.1 ih.2 (by simpa [Raw] using hr) h
 
-end J2M
+theorem generate_nf_aux {cfg : GenCfg} {o : GenOracles} {samples : List Json} {t : Ty}
+    (h : generate cfg o samples = .ok t) : nf t = true := by
+  unfold generate at h
+  simp only [bind, Except.bind] at h
+  split at h
+  · cases h
+  · rename_i sets hsets
+    split at h
+    · cases h
+    · rename_i fields hfields
+      have hraw : AllRawF cfg fields := by
+        apply mergeFieldSets_rawF _ hfields
+        intro m hm
+        obtain ⟨v, _, hv⟩ := mapM_mem_inv _ _ _ hsets m hm
+        cases v <;> simp [convert] at hv
+        exact convertFields_rawD cfg o _ m hv
+      exact (optimize_nf_all cfg _ _).1 _ t hraw.Raw h
+
+end J2M.C08P
